@@ -322,8 +322,7 @@ impl LogState {
                                 interrupted += 1;
                                 lines_written += 1;
                             }
-                            if matches.is_present("recursive") {
-                                assert!(!g.text().is_empty());
+                            if matches.is_present("recursive") && !g.text().is_empty() {
                                 if let Some((_, loglock, _)) = info.as_mut() {
                                     loglock.unlock()?;
                                 }
@@ -338,20 +337,23 @@ impl LogState {
                             self.already.insert(fixname);
                         }
                         "done" => {
-                            let (rv, name) =
-                                g.done_text().expect("improperly formatted done entry");
-                            logs::meta(
-                                g.kind(),
-                                &format!(
-                                    "{} {}",
-                                    rv,
-                                    rel(&topdir, mydir, name)?
-                                        .into_os_string()
-                                        .into_string()
-                                        .expect("cannot format target as string")
-                                ),
-                                None,
-                            );
+                            if let Some((rv, name)) = g.done_text() {
+                                logs::meta(
+                                    g.kind(),
+                                    &format!(
+                                        "{} {}",
+                                        rv,
+                                        rel(&topdir, mydir, name)?
+                                            .into_os_string()
+                                            .into_string()
+                                            .expect("cannot format target as string")
+                                    ),
+                                    None,
+                                );
+                            } else {
+                                // Not one of ours: script output that looks like a record.
+                                logs::write(&clean_line(&line));
+                            }
                             lines_written += 1;
                         }
                         _ => {
